@@ -264,17 +264,32 @@ def adversarial_alpha(sh, seed, thorough):
             kern = Kcls(td, rng, outlier_proposal_prob=0.1, perm_dist=perm)
             for alpha in ((1.0, 2.5, 1.0, 0.3, 2.5) if thorough else (1.0, 2.5, 1.0)):
                 td.prior.alpha = alpha
-                for pk in [None] + parents:
+                from . import c02
+                for pk, variant in [(None, 0)] + [(pk_, v_) for pk_ in parents for v_ in (0, 1)]:
                     if pk is None:       # first step of an SMC pass: no parent particle
                         ptree, ppart, d = None, None, 0
                     else:
+                        # variant 1: the same clones created in another order, so that they carry other labels
                         ptree = absstate.build(pk, data)
+                        if variant == 1:
+                            flat = all(len(c) == 1 for c in pk[0]) and len(pk[0]) >= 2 and not pk[1]
+                            if not flat:
+                                continue
+                            from phyclone.tree import Tree as _T
+                            ptree = _T(data[0].grid_size)
+                            for c in sorted(pk[0], key=sorted, reverse=True):      # clones created in the opposite order: labels swapped
+                                ptree.create_root_node(children=[], data=[data[min(c)]])
                         ppart = Particle(0, None, ptree, td, perm)
                         d = max(absstate.data_ids(pk)) + 1
                     sh.ctx = "reused %s, alpha set to %s without a clear, parent %s" % (Kcls.__name__, alpha, "none" if pk is None else absstate.key_str(pk))
                     pd = kern.get_proposal_distribution(data[d], ppart, ptree)
+                    drawn = []
                     for t, p, _ in enumerate_paths(lambda: pd.sample(), rng):
                         pd.log_p(t)
+                        try:
+                            drawn.append((round(p, 12), absstate.quick_key(t.tree)))
+                        except AttributeError:
+                            drawn = None
                         # whatever memo produced this candidate: the densities it carries must be those of its tree under
                         # the concentration value that is current NOW
                         try:
@@ -287,6 +302,18 @@ def adversarial_alpha(sh, seed, thorough):
                                 sh._viol("candidate_density", "a proposed tree carries %s = %.12g; its density under the current concentration value %s is %.12g" % (nm_, got_, alpha, want_),
                                          {"alpha": alpha, "kernel": Kcls.__name__, "parent": None if pk is None else absstate.to_json(pk)})
                                 break
+                    if variant == 1 and drawn is not None:
+                        # the label-swapped twin was served after its sibling without a clear: the SAME random outcomes must give
+                        # the same trees as with cold proposal caches ("caching never changes a tree")
+                        from phyclone.utils.dev import clear_proposal_dist_caches
+                        clear_proposal_dist_caches()
+                        pd2 = kern.get_proposal_distribution(data[d], ppart, ptree)
+                        cold = [(round(p, 12), absstate.quick_key(t.tree)) for t, p, _ in enumerate_paths(lambda: pd2.sample(), rng)]
+                        if cold != drawn:
+                            k_ = next((i for i, (a_, b_) in enumerate(zip(drawn, cold)) if a_ != b_), min(len(drawn), len(cold)))
+                            sh._viol("same_draw_other_tree", "with warm proposal caches random outcome #%d of sample() gives %s, with cold caches %s (parent with clones created in the opposite order, served after its twin)" % (
+                                k_, absstate.key_str(drawn[k_][1]) if k_ < len(drawn) else None, absstate.key_str(cold[k_][1]) if k_ < len(cold) else None),
+                                {"alpha": alpha, "kernel": Kcls.__name__, "parent": absstate.to_json(pk)})
 
 
 def validate_cache_trace(ck, sh, corrupt=None):
